@@ -1,1 +1,2 @@
 import Gonnx.Model
+import Gonnx.Theorems.C15
